@@ -9,6 +9,9 @@
 //                       Richardson finite differences of the object's own getValue()
 //   L4_d2_alone         (4)+(5) a second derivative asked without any earlier first-derivative query
 //   L5_history          (5) after every op of a history every answer equals the one of a FRESH object (bitwise) and the reference
+//   L5_alphabet_history (5) the same histories when the hidden alphabet has a parameter of its own on which the emission table and / or
+//                       the transition matrix depend; updates name any subset of {alphabet, transition, emission} parameters
+//   L5_alphabet_enum    (5) exhaustively: algorithm x dependency on the alphabet x route x (not named / same value / new value) per parameter
 //   L6_builtin_matrix   (6) FullHmmTransitionMatrix / AutoCorrelationTransitionMatrix: row-stochastic, Pij==getPij, stationary
 //                       vector, whatever the order of the queries after a parameter change
 //   L6_builtin_enum     the same, exhaustively over class x size x preset x update route x order of the three queries
@@ -81,14 +84,18 @@ struct EmTab {  // immutable tables: e[t][s](th) = exp(lb[t][s] + sum_k th_k*w[k
   int L = 0, n = 0, np = 1;
   vector<vector<double>> lb;
   vector<vector<double>> w[2], v[2];
+  vector<vector<double>> au;   // coupling to the hidden alphabet's own parameter: log e[t][s] += lev * au[t][s] (empty: no coupling)
 };
-inline double emisValue(const EmTab& T, size_t t, size_t s, const double* th) {
+inline double emisValue(const EmTab& T, size_t t, size_t s, const double* th, double lev = 0) {
   double x = T.lb[t][s];
   for (int k = 0; k < T.np; ++k) x += th[k] * T.w[k][t][s] + th[k] * th[k] * T.v[k][t][s];
+  if (!T.au.empty()) x += lev * T.au[t][s];
   return std::exp(x);
 }
 inline double emisG(const EmTab& T, int k, size_t t, size_t s, const double* th) { return T.w[k][t][s] + 2 * th[k] * T.v[k][t][s]; }
 inline double mixP(const vector<vector<double>>& A, const vector<vector<double>>& B, double lam, size_t i, size_t j) { return (1 - lam) * A[i][j] + lam * B[i][j]; }
+// mixing weight of a transition matrix that also depends on the alphabet's parameter lev: lam for lev = 0, 1 - lam for lev = 1 (in [0,1])
+inline double mixW(double lam, double lev) { return lam + lev - 2 * lam * lev; }
 
 struct Spec {
   int n = 1, L = 1;
@@ -96,6 +103,10 @@ struct Spec {
   shared_ptr<EmTab> tab; double th[2] = {0, 0};
   vector<size_t> bp;                              // sorted, distinct, in 1..L-1: site b starts a new segment
   string tabDesc;                                 // textual description of the emission table (explicit cells or seed)
+  // hidden alphabet with a parameter of its own ("lev"), on which the emissions (tab->au non-empty) and / or the
+  // transitions (depT) depend: the situation fireParameterChanged of the likelihood classes refreshes the two components for
+  bool ap = false, depT = false; double lev = 0;
+  double weight() const { return depT ? mixW(lam, lev) : lam; }
 };
 
 // stationary vector of an irreducible chain by the Grassmann-Taksar-Heyman elimination (no subtraction: every component
@@ -122,7 +133,8 @@ LD statResidual(const vector<vector<LD>>& P, const vector<LD>& pi) {
 // =================================================================================== harness model classes
 struct Alpha : public virtual HmmStateAlphabet, public AbstractParametrizable {
   size_t n_;
-  explicit Alpha(size_t n) : AbstractParametrizable(""), n_(n) {}
+  explicit Alpha(size_t n, bool ap = false, double lev = 0) : AbstractParametrizable(""), n_(n) { if (ap) addParameter_(new Parameter("lev", lev, Parameter::PROP_CONSTRAINT_IN)); }
+  double lev() const { return hasParameter("lev") ? getParameterValue("lev") : 0; }
   Alpha* clone() const override { return new Alpha(*this); }
   const Clonable& getState(size_t) const override { return *this; }
   size_t getNumberOfStates() const override { return n_; }
@@ -142,7 +154,8 @@ struct Emis : public virtual HmmEmissionProbabilities, public AbstractParametriz
   }
   Emis* clone() const override { return new Emis(*this); }
   void theta(double* th) const { th[0] = getParameterValue("th1"); th[1] = T_->np > 1 ? getParameterValue("th2") : 0; }
-  void update() { double th[2]; theta(th); for (size_t t = 0; t < e_.size(); ++t) for (size_t s = 0; s < e_[t].size(); ++s) e_[t][s] = emisValue(*T_, t, s, th); }
+  // the table is rebuilt when the object is notified of a parameter change: its own or, through the likelihood object, the alphabet's
+  void update() { double th[2]; theta(th); double lev = T_->au.empty() ? 0 : dynamic_cast<const Alpha&>(*alph_).lev(); for (size_t t = 0; t < e_.size(); ++t) for (size_t s = 0; s < e_[t].size(); ++s) e_[t][s] = emisValue(*T_, t, s, th, lev); }
   void fireParameterChanged(const ParameterList&) override { update(); }
   const HmmStateAlphabet& hmmStateAlphabet() const override { return *alph_; }
   shared_ptr<const HmmStateAlphabet> getHmmStateAlphabet() const override { return alph_; }
@@ -166,14 +179,15 @@ struct Emis : public virtual HmmEmissionProbabilities, public AbstractParametriz
 struct TabTrans : public virtual HmmTransitionMatrix, public AbstractParametrizable {
   shared_ptr<const HmmStateAlphabet> alph_;
   vector<vector<double>> A_, B_;
-  RowMatrix<double> P_; vector<double> pi_;
-  TabTrans(shared_ptr<const HmmStateAlphabet> a, const vector<vector<double>>& A, const vector<vector<double>>& B, double lam) : AbstractParametrizable(""), alph_(a), A_(A), B_(B), P_(A.size(), A.size()), pi_(A.size()) {
+  RowMatrix<double> P_; vector<double> pi_; bool depT_;
+  TabTrans(shared_ptr<const HmmStateAlphabet> a, const vector<vector<double>>& A, const vector<vector<double>>& B, double lam, bool depT = false) : AbstractParametrizable(""), alph_(a), A_(A), B_(B), P_(A.size(), A.size()), pi_(A.size()), depT_(depT) {
     addParameter_(new Parameter("lam", lam, Parameter::PROP_CONSTRAINT_IN));
     update();
   }
   TabTrans* clone() const override { return new TabTrans(*this); }
   void update() {
     double lam = getParameterValue("lam"); size_t n = A_.size();
+    if (depT_) lam = mixW(lam, dynamic_cast<const Alpha&>(*alph_).lev());
     for (size_t i = 0; i < n; ++i) for (size_t j = 0; j < n; ++j) P_(i, j) = mixP(A_, B_, lam, i, j);
     vector<LD> pi = stationaryLD(toLD(P_, n));
     for (size_t i = 0; i < n; ++i) pi_[i] = static_cast<double>(pi[i]);
@@ -195,11 +209,11 @@ void setBreaks(Ref& r, const vector<size_t>& bp) { r.brk.assign(static_cast<size
 Ref makeRef(const Spec& s) {
   Ref r; r.n = s.n; r.L = s.L; size_t n = static_cast<size_t>(s.n);
   r.P.assign(n, vector<LD>(n));
-  for (size_t i = 0; i < n; ++i) for (size_t j = 0; j < n; ++j) r.P[i][j] = mixP(s.A, s.B, s.lam, i, j);
+  for (size_t i = 0; i < n; ++i) for (size_t j = 0; j < n; ++j) r.P[i][j] = mixP(s.A, s.B, s.weight(), i, j);
   vector<LD> pi = stationaryLD(r.P); r.pi.resize(n);
   for (size_t i = 0; i < n; ++i) r.pi[i] = static_cast<double>(pi[i]);   // the doubles the transition class exposes
   r.e.assign(static_cast<size_t>(s.L), vector<LD>(n));
-  for (size_t t = 0; t < r.e.size(); ++t) for (size_t k = 0; k < n; ++k) r.e[t][k] = emisValue(*s.tab, t, k, s.th);
+  for (size_t t = 0; t < r.e.size(); ++t) for (size_t k = 0; k < n; ++k) r.e[t][k] = emisValue(*s.tab, t, k, s.th, s.lev);
   setBreaks(r, s.bp);
   return r;
 }
@@ -429,6 +443,11 @@ string showRows(const vector<vector<double>>& R) { ostringstream os; os << "["; 
 string showBp(const vector<size_t>& bp) { ostringstream os; os << "{"; for (size_t i = 0; i < bp.size(); ++i) os << (i ? "," : "") << bp[i]; os << "}"; return os.str(); }
 void describe(vf::Ctx& c, const Spec& s) {
   c.desc << "n=" << s.n << " L=" << s.L << " A=" << showRows(s.A) << " B=" << showRows(s.B) << " lam=" << s.lam << " th=(" << s.th[0] << "," << s.th[1] << ") breaks=" << showBp(s.bp) << " emissions{" << s.tabDesc << "}";
+  if (s.ap) {
+    c.desc << " alphabet parameter lev=" << s.lev << (s.depT ? " transitions: weight lam+lev-2*lam*lev;" : " transitions independent of lev;");
+    if (s.tab->au.empty()) c.desc << " emissions independent of lev";
+    else { c.desc << " log e[t][s] += lev*au, au="; for (auto& row : s.tab->au) { c.desc << "|"; for (double x : row) c.desc << " " << x; } }
+  }
 }
 
 // =================================================================================== objects under test
@@ -445,8 +464,8 @@ shared_ptr<HmmLikelihood> makeLik(int alg, shared_ptr<Alpha> a, shared_ptr<HmmTr
   }
 }
 Obj build(const Spec& s, int alg, size_t chunk = 1000000) {
-  Obj o; o.alpha = make_shared<Alpha>(static_cast<size_t>(s.n));
-  o.trans = make_shared<TabTrans>(o.alpha, s.A, s.B, s.lam);
+  Obj o; o.alpha = make_shared<Alpha>(static_cast<size_t>(s.n), s.ap, s.lev);
+  o.trans = make_shared<TabTrans>(o.alpha, s.A, s.B, s.lam, s.depT);
   o.emis = make_shared<Emis>(o.alpha, s.tab, s.th);
   o.lik = makeLik(alg, o.alpha, o.trans, o.emis, chunk);
   if (!s.bp.empty()) o.lik->setBreakPoints(s.bp);
@@ -762,21 +781,42 @@ struct Hist {
 vector<size_t> genBreakSubset(vf::Ctx& c, int L) { vector<size_t> bp; int mode = static_cast<int>(c.below(3)); for (int t = 1; t < L; ++t) if (mode == 0 ? false : mode == 1 ? c.below(3) == 2 : c.flag()) bp.push_back(static_cast<size_t>(t)); return bp; }
 }  // namespace
 
-LAW(L5_history, RC, 8000, 300000, 520, "a changed parameter value or new break points between two derivative queries, or >=1 break point, or a zero transition, or an emission below 1e-100") {
+namespace {
+const vector<double> LEVS = {0.0, 0.25, 0.5, 0.75, 1.0};   // values of lam and lev: the weight lam+lev-2*lam*lev is exact
+// configuration "the hidden alphabet has a parameter of its own": which components depend on it (emissions first: simplest)
+void genAlphabetConfig(vf::Ctx& c, Spec& s) {
+  s.ap = true;
+  int dep = (1 + static_cast<int>(c.below(4))) % 4;   // 1 emissions, 2 transitions, 3 both, 0 neither
+  s.depT = (dep & 2) != 0;
+  s.lev = c.pick(LEVS);
+  if (dep & 1) {
+    auto T = make_shared<EmTab>(*s.tab);   // au in [-1,0]: the emissions stay inside the range of the table without the coupling times exp(-1)
+    T->au.assign(static_cast<size_t>(s.L), vector<double>(static_cast<size_t>(s.n)));
+    for (auto& row : T->au) for (auto& x : row) x = -static_cast<double>(c.below(5)) / 4;
+    s.tab = T;
+  }
+}
+
+// One history on one likelihood object.  alphaCfg: the configuration draw "alphabet with / without a parameter" is made and the
+// updates name any subset of {alphabet, transition, emission} parameters (without it the choice stream decodes as it always did).
+void historyCase(vf::Ctx& c, bool alphaCfg) {
   bool hasZero, hasExtreme;
   GenOpt o; o.maxL = 8;
   Spec cur = genSpec(c, o, hasZero, hasExtreme);
+  if (alphaCfg && c.weighted({1, 3}) != 0) genAlphabetConfig(c, cur);
   describe(c, cur);
   int alg = static_cast<int>(c.below(3)), np = cur.tab->np; size_t L = static_cast<size_t>(cur.L), n = static_cast<size_t>(cur.n);
   size_t chunk = alg != LOWM ? 1000000 : cur.L == 1 ? 1 + c.below(2) : 2 + c.below(L);
   c.desc << " " << algName(alg); if (alg == LOWM) c.desc << "(chunk " << chunk << ")"; c.desc << " history:";
   Obj ob = build(cur, alg, chunk); string who = algName(alg);
-  Hist h; int derivQueries = 0; bool changeBetweenDerivs = false, changedSinceLastDeriv = false;
+  Hist h; int derivQueries = 0; bool changeBetweenDerivs = false, changedSinceLastDeriv = false, jointAlphabetUpdate = false;
+  auto value = [&](int which) -> double& { return which == 0 ? cur.lam : which == 3 ? cur.lev : cur.th[which - 1]; };   // 0 lam, 1 th1, 2 th2, 3 lev
 
   // reference and fresh object for the current state
   auto verify = [&](const char* after) {
     double th[2] = {ob.lik->getParameterValue("th1"), np > 1 ? ob.lik->getParameterValue("th2") : 0};
     CHECK(ob.lik->getParameterValue("lam") == cur.lam && th[0] == cur.th[0] && th[1] == cur.th[1], who << " after " << after << ": parameter values (lam,th1,th2) = (" << ob.lik->getParameterValue("lam") << "," << th[0] << "," << th[1] << "), requested (" << cur.lam << "," << cur.th[0] << "," << cur.th[1] << ")");
+    if (cur.ap) CHECK(ob.lik->getParameterValue("lev") == cur.lev && ob.alpha->lev() == cur.lev, who << " after " << after << ": alphabet parameter lev = " << ob.lik->getParameterValue("lev") << " (in the alphabet object " << ob.alpha->lev() << "), requested " << cur.lev);
     CHECK(ob.lik->getBreakPoints() == cur.bp, who << " after " << after << ": getBreakPoints() differs from the last setBreakPoints()");
     Obj fresh = build(cur, alg, chunk);
     double a = ob.lik->getLogLikelihood(), b = fresh.lik->getLogLikelihood();
@@ -863,32 +903,34 @@ LAW(L5_history, RC, 8000, 300000, 520, "a changed parameter value or new break p
     c.desc << (op ? "; " : " ");
     switch (c.weighted({3, 2, 1, 2, 2, 4, 3, 2})) {
       case 0: {  // one parameter
-        int which = static_cast<int>(c.below(static_cast<uint64_t>(1 + np))); double v; string name;
-        if (which == 0) { name = "lam"; v = c.pick({0.0, 0.25, 0.5, 0.75, 1.0}); } else { name = varName(which - 1); v = genTheta(c); }
-        if (c.oneIn(4)) v = which == 0 ? cur.lam : cur.th[which - 1];   // unchanged value
+        int which = static_cast<int>(c.below(static_cast<uint64_t>(1 + np + (cur.ap ? 1 : 0)))); double v; string name;
+        if (which > np) which = 3;   // the alphabet's parameter
+        if (which == 0) { name = "lam"; v = c.pick({0.0, 0.25, 0.5, 0.75, 1.0}); } else if (which == 3) { name = "lev"; v = c.pick(LEVS); } else { name = varName(which - 1); v = genTheta(c); }
+        if (c.oneIn(4)) v = value(which);   // unchanged value
         c.desc << "setParameterValue(" << name << "," << v << ")";
         ob.lik->setParameterValue(name, v);
-        if (which == 0) cur.lam = v; else cur.th[which - 1] = v;
+        value(which) = v;
         stateChanged(true);   // setParameterValue notifies even when the value is the same
         break; }
       case 1: {  // several parameters at once, listed in the order of the object's own list
-        ParameterList pl; bool any = false; int route = static_cast<int>(c.below(4));
+        ParameterList pl; bool any = false, chg[4] = {false, false, false, false}; int route = static_cast<int>(c.below(4));
         c.desc << (route == 0 ? "setParametersValues{" : route == 1 ? "matchParametersValues{" : route == 2 ? "setAllParametersValues{" : "setParameters{");
         Spec nxt = cur; const ParameterList& own = ob.lik->getParameters();
         for (size_t q = 0; q < own.size(); ++q) {
-          string nm = own[q].getName(); int which = nm == "lam" ? 0 : nm == "th1" ? 1 : 2;
+          string nm = own[q].getName(); int which = nm == "lam" ? 0 : nm == "th1" ? 1 : nm == "th2" ? 2 : 3;
           bool in = c.flag() || route == 2;   // setAllParametersValues documents "exactly the same parameters"
-          double old = which == 0 ? cur.lam : cur.th[which - 1], v = which == 0 ? c.pick({0.0, 0.25, 0.5, 0.75, 1.0}) : genTheta(c);
+          double old = value(which), v = which == 0 ? c.pick({0.0, 0.25, 0.5, 0.75, 1.0}) : which == 3 ? c.pick(LEVS) : genTheta(c);
           if (c.oneIn(4)) v = old;
           if (!in) continue;
-          any |= v != old; (which == 0 ? nxt.lam : nxt.th[which - 1]) = v;
+          any |= v != old; chg[which] = v != old; (which == 0 ? nxt.lam : which == 3 ? nxt.lev : nxt.th[which - 1]) = v;
           pl.addParameter(Parameter(nm, v)); c.desc << nm << "=" << v << " ";
         }
         c.desc << "}";
         bool fired = true;
         if (route == 0) ob.lik->setParametersValues(pl); else if (route == 1) fired = ob.lik->matchParametersValues(pl); else if (route == 2) ob.lik->setAllParametersValues(pl); else ob.lik->setParameters(pl);
         if (route == 1) CHECK(fired == any, who << ": matchParametersValues returned " << fired << " although " << (any ? "a value changed" : "no value changed"));
-        cur.lam = nxt.lam; cur.th[0] = nxt.th[0]; cur.th[1] = nxt.th[1];
+        cur.lam = nxt.lam; cur.th[0] = nxt.th[0]; cur.th[1] = nxt.th[1]; cur.lev = nxt.lev;
+        if (chg[3] && (chg[0] != (chg[1] || chg[2]))) jointAlphabetUpdate = true;
         if (fired) stateChanged(true);
         break; }
       case 2: c.desc << "getValue"; break;
@@ -901,8 +943,80 @@ LAW(L5_history, RC, 8000, 300000, 520, "a changed parameter value or new break p
     verify("the last op");
   }
   (void)n;
-  c.nt(changeBetweenDerivs || !cur.bp.empty() || hasZero || hasExtreme);
+  c.nt(changeBetweenDerivs || !cur.bp.empty() || hasZero || hasExtreme || jointAlphabetUpdate);
   if (changeBetweenDerivs) c.label("change-between-derivative-queries");
+  if (jointAlphabetUpdate) c.label("alphabet-parameter-changed-with-one-other-component");
+}
+}  // namespace
+
+LAW(L5_history, RC, 8000, 300000, 520, "a changed parameter value or new break points between two derivative queries, or >=1 break point, or a zero transition, or an emission below 1e-100") {
+  historyCase(c, false);
+}
+
+// the same histories with the configuration "hidden alphabet with a parameter on which emissions and / or transitions depend"
+LAW(L5_alphabet_history, RC, 4000, 150000, 600, "as L5_history, or one update changing the alphabet's parameter together with parameters of exactly one of the two other components") {
+  historyCase(c, true);
+}
+
+// Exhaustive over algorithm x which components depend on the alphabet's parameter x update route x, for each of the three
+// parameters (alphabet lev, transition lam, emission th1), "not named / named with its current value / named with a new value"
+// in a first update and "unchanged / changed" in a second one, on a fixed 2-state, 3-site model: after each update the
+// log-likelihood (and the posteriors) are those of a fresh object built from the current values, and the sum over all paths.
+LAW(L5_alphabet_enum, ENUM, 1, 1, 0, "one update changes >= 2 of the three parameters, or the alphabet's parameter") {
+  int alg = static_cast<int>(c.below(3)); int dep = static_cast<int>(c.below(4));   // 0 alphabet without parameter, 1 emissions, 2 transitions, 3 both depend on lev
+  Spec cur; cur.n = 2; cur.L = 3; cur.A = {{0.5, 0.5}, {0.25, 0.75}}; cur.B = {{0.875, 0.125}, {0.5, 0.5}}; cur.lam = 0.25;
+  auto T = make_shared<EmTab>(); T->L = 3; T->n = 2; T->np = 1;
+  T->lb = {{-0.5, -1.25}, {-2, -0.25}, {-0.75, -1.5}};
+  T->w[0] = {{0.5, -0.25}, {-0.75, 1}, {0.25, 0.5}}; T->v[0] = {{0.125, 0}, {-0.125, 0.25}, {0, -0.125}};
+  T->w[1].assign(3, vector<double>(2, 0)); T->v[1] = T->w[1];
+  cur.ap = dep != 0; cur.depT = (dep & 2) != 0; cur.lev = 0.5;
+  if (dep & 1) T->au = {{-0.25, -1}, {-0.75, 0}, {-0.5, -0.25}};
+  cur.tab = T; cur.tabDesc = "fixed table"; cur.th[0] = 0.5; cur.bp = c.flag() ? vector<size_t>{2} : vector<size_t>{};
+  describe(c, cur);
+  size_t chunk = 2;
+  c.desc << " " << algName(alg) << (alg == LOWM ? "(chunk 2)" : "");
+  Obj ob = build(cur, alg, chunk); string who = algName(alg);
+  static const double NEWV[2][3] = {{0.75, -0.25, 1.0}, {0.5, 1.0, 0.25}};   // new values of lam, th1, lev in the first / second update
+  const char* NAMES[3] = {"lam", "th1", "lev"};
+  int npar = cur.ap ? 3 : 2; bool nt = false;
+  auto verify = [&](const string& after) {
+    Obj fresh = build(cur, alg, chunk);
+    double a = ob.lik->getLogLikelihood(), b = fresh.lik->getLogLikelihood();
+    CHECK(vf::sameBits(a, b), who << " after " << after << ": getLogLikelihood() = " << vf::dec(a) << " but a fresh object built from the current parameter values gives " << vf::dec(b));
+    Ref r = makeRef(cur); PathEnum pe(r); LD R1 = logl(pe.dfs(0, 0, 1));
+    checkLogLik(c, *ob.lik, R1, who + " after " + after);
+    if (alg == LOWM) return;
+    vector<vector<double>> p1, p2; ob.lik->getHiddenStatesPosteriorProbabilities(p1, false); fresh.lik->getHiddenStatesPosteriorProbabilities(p2, false);
+    CHECK(p1.size() == 3 && p2.size() == 3, who << ": " << p1.size() << " posterior rows");
+    for (size_t t = 0; t < 3; ++t) CHECK(sameVec(p1[t], p2[t]), who << " after " << after << ": posteriors of site " << t << " differ from those of a fresh object (" << vf::dec(p1[t][0]) << " against " << vf::dec(p2[t][0]) << ")");
+  };
+  verify("construction");
+  for (int step = 0; step < 2; ++step) {
+    int route = step == 0 ? static_cast<int>(c.below(4)) : static_cast<int>(c.below(2));
+    ParameterList pl; bool any = false; int changed = 0; bool levChanged = false;
+    c.desc << (route == 0 ? " | setParametersValues{" : route == 1 ? " | matchParametersValues{" : route == 2 ? " | setAllParametersValues{" : " | setParameters{");
+    // in the order of the object's own list (alphabet, transitions, emissions)
+    static const int ORDER[3] = {2, 0, 1};
+    Spec nxt = cur;
+    for (int q = 0; q < 3; ++q) {
+      int k = ORDER[q]; if (k >= npar) continue;
+      int mode = step == 0 ? static_cast<int>(c.below(3)) : 1 + static_cast<int>(c.below(2));   // 0 not named, 1 named with the current value, 2 named with a new value
+      if (mode == 0 && route == 2) mode = 1;   // setAllParametersValues documents "exactly the same parameters"
+      if (mode == 0) continue;
+      double& slot = k == 0 ? nxt.lam : k == 1 ? nxt.th[0] : nxt.lev;
+      if (mode == 2) { slot = NEWV[step][k]; any = true; ++changed; if (k == 2) levChanged = true; }
+      pl.addParameter(Parameter(NAMES[k], slot)); c.desc << NAMES[k] << "=" << slot << (mode == 2 ? "(new) " : " ");
+    }
+    c.desc << "}";
+    if (changed >= 2 || levChanged) nt = true;
+    bool fired = true;
+    if (route == 0) ob.lik->setParametersValues(pl); else if (route == 1) fired = ob.lik->matchParametersValues(pl); else if (route == 2) ob.lik->setAllParametersValues(pl); else ob.lik->setParameters(pl);
+    if (route == 1) CHECK(fired == any, who << ": matchParametersValues returned " << fired << " although " << (any ? "a value changed" : "no value changed"));
+    cur.lam = nxt.lam; cur.th[0] = nxt.th[0]; cur.lev = nxt.lev;
+    CHECK(ob.lik->getParameterValue("lam") == cur.lam && ob.lik->getParameterValue("th1") == cur.th[0] && (!cur.ap || ob.lik->getParameterValue("lev") == cur.lev), who << ": parameter values after the update differ from the requested ones");
+    verify(step == 0 ? "the first update" : "the second update");
+  }
+  c.nt(nt);
 }
 
 // =================================================================================== L6: built-in transition models
